@@ -1449,6 +1449,19 @@ impl<'a, M: Matcher, W: WriteColor> StandardImpl<'a, M, W> {
         if self.sink.match_count == 0 {
             return Ok(());
         }
+        // When nothing else was printed for this search, this message is its
+        // only output and, like any other output, is separated from what
+        // earlier searches printed.
+        let this_search_written = self.wtr().borrow().count() > 0;
+        if !this_search_written {
+            if let Some(ref sep) = *self.config().separator_search {
+                let ever_written = self.wtr().borrow().total_count() > 0;
+                if ever_written {
+                    self.write(sep)?;
+                    self.write_line_term()?;
+                }
+            }
+        }
 
         let bin = self.searcher.binary_detection();
         if let Some(byte) = bin.quit_byte() {
